@@ -507,6 +507,9 @@ func (vc *FuncVC) run() {
 		if _, ok := vc.reach[b]; !ok {
 			continue
 		}
+		if vc.deadReturnOK(b.Instrs[len(b.Instrs)-1].(*ssa.Return)) {
+			continue
+		}
 		o := vc.oblige("cover", "", fmt.Sprintf("return site in block %d is reachable under the assumed contracts and invariants (vacuity guard)", b.Index), b.Instrs[len(b.Instrs)-1].Pos(), vc.reach[b], False)
 		if o != nil {
 			o.Cover = true
@@ -673,6 +676,27 @@ func (vc *FuncVC) invEnv(l *loopInfo, st *State, defs map[string][]defPoint, phi
 	env.lookup = vc.resolver(defs, l.head, nPhis(l.head), st, phiOv, nil)
 	if l.rng != nil {
 		env.visKey = visKeyOf(l.rng)
+	}
+	if l.pre != nil && len(l.entries) == 1 {
+		ov := map[ssa.Value]Term{}
+		for _, ins := range l.head.Instrs {
+			phi, ok := ins.(*ssa.Phi)
+			if !ok {
+				break
+			}
+			for i, pp := range l.head.Preds {
+				if pp == l.entries[0] {
+					if t, ok := vc.vals[phi.Edges[i]]; ok {
+						ov[phi] = t
+					} else if c, ok := phi.Edges[i].(*ssa.Const); ok {
+						ov[phi] = vc.constTerm(c.Value, c.Type())
+					}
+				}
+			}
+		}
+		le := &Env{vc: vc, st: l.pre, old: vc.entry, vars: map[string]SVal{}}
+		le.lookup = vc.resolver(defs, l.head, nPhis(l.head), l.pre, ov, nil)
+		env.loopEntry = le
 	}
 	return env
 }
@@ -1193,6 +1217,11 @@ func (vc *FuncVC) instr(b *ssa.BasicBlock, idx int, ins ssa.Instruction, st *Sta
 		vc.assume(And(reach, okT), vc.typeFacts(vT, mt.Elem(), 0))
 		vc.assume(And(reach, okT), vc.allocFacts(st, vT, mt.Elem(), 0))
 		vc.setVersion(st, key, Ite(okT, Store(vis, kT, True), vis))
+		// cardinalities: each step visits one more key; when the iteration ends every key has been visited
+		// (the map is not changed while it is ranged over: a delete/insert in the loop body is flagged)
+		card := vc.cardFn(ks)
+		vc.emit("(assert (=> %s (= (%s %s) (+ (%s %s) 1))))", And(reach, okT).S, card, vc.cur(st, key).S, card, vis.S)
+		vc.emit("(assert (=> %s (= (%s %s) (%s %s))))", And(reach, Not(okT)).S, card, vis.S, card, dom.S)
 		vc.tuples[x] = []Term{okT, kT, vT}
 	case *ssa.Call:
 		vc.call(b, idx, x, x.Common(), x, st, defs, reach)
@@ -1801,6 +1830,29 @@ func containsArray(t types.Type, depth int) bool {
 		for i := 0; i < u.NumFields(); i++ {
 			if containsArray(u.Field(i).Type(), depth+1) {
 				return true
+			}
+		}
+	}
+	return false
+}
+
+// deadReturnOK: the contract declares that a return passing on an error produced by a given callee may be dead
+// code (e.g. a second validation that can never fail after the first), so its vacuity guard is not generated.
+func (vc *FuncVC) deadReturnOK(r *ssa.Return) bool {
+	if vc.con == nil || len(vc.con.DeadReturns) == 0 {
+		return false
+	}
+	for _, res := range r.Results {
+		v := res
+		if ex, ok := v.(*ssa.Extract); ok {
+			v = ex.Tuple
+		}
+		if call, ok := v.(*ssa.Call); ok {
+			key, _ := vc.calleeContract(call.Common())
+			for _, d := range vc.con.DeadReturns {
+				if key == d || strings.HasSuffix(key, "."+d) {
+					return true
+				}
 			}
 		}
 	}
